@@ -4,6 +4,9 @@ import (
 	"encoding/json"
 	"fmt"
 	"os"
+	"strings"
+
+	"github.com/metrico/qryn/reader/logql/logql_transpiler_v2/shared"
 
 	traceql_parser "github.com/metrico/qryn/reader/traceql/parser"
 	"github.com/metrico/qryn/reader/traceql/transpiler/clickhouse_transpiler"
@@ -126,12 +129,89 @@ func c11Text(r *h.Rng, res *h.Result, n int, maxSel int, big bool) error {
 	return res.Compare("text", ops, impl, cases)
 }
 
+// c11Tags: text tie for PlanTagsV2 / PlanValuesV2 (single selector)
+func c11Tags(r *h.Rng, res *h.Result, n int) error {
+	res.Stream("tags: clickhouse_transpiler.PlanTagsV2 / PlanValuesV2 → Process → String vs TraceQL.planTags / planValues (byte-equal SQL, errors as ERR)")
+	var ops, impl []string
+	var cases []any
+	run := func(kind, query string, c tqctx, key string) {
+		var text string
+		var script *traceql_parser.TraceQLScript
+		var err error
+		func() {
+			defer func() {
+				if rec := recover(); rec != nil {
+					err = fmt.Errorf("panic: %v", rec)
+				}
+			}()
+			script, err = traceql_parser.Parse(query)
+			if err != nil {
+				script = nil
+				return
+			}
+			var p interface {
+				Process(*shared.PlannerContext) (sql.ISelect, error)
+			}
+			if kind == "tags" {
+				p, err = clickhouse_transpiler.PlanTagsV2(script)
+			} else {
+				p, err = clickhouse_transpiler.PlanValuesV2(script, key)
+			}
+			if err != nil {
+				return
+			}
+			sel, e := p.Process(c.planner())
+			if e != nil {
+				err = e
+				return
+			}
+			text, err = sel.String(sql.DefaultCtx())
+		}()
+		if script == nil {
+			return
+		}
+		if err != nil && strings.HasPrefix(err.Error(), "panic:") {
+			res.Count("tags:impl-panic")
+			return
+		}
+		ser, serr := serTraceQL(script)
+		if serr != nil {
+			return
+		}
+		out := "ERR"
+		if err == nil {
+			out = h.Hex([]byte(text))
+			res.Count("tags:" + kind + "-ok")
+		} else {
+			res.Count("tags:" + kind + "-error")
+		}
+		if kind == "tags" {
+			ops = append(ops, "c11tags "+c.ser()+" "+ser)
+		} else {
+			ops = append(ops, "c11values "+c.ser()+" "+hx(c.planner().TracesKVDistTable)+" "+h.Hex([]byte(key))+" "+ser)
+		}
+		impl = append(impl, out)
+		cases = append(cases, map[string]any{"kind": kind, "query": query, "ctx": c, "key": key, "impl_error": fmt.Sprint(err)})
+		res.Case("tags:"+kind+query+fmt.Sprint(c), err == nil)
+	}
+	for i := 0; i < n; i++ {
+		query := tqSelector(r, 2)
+		if r.Chance(5) {
+			query = genTraceQL(r, 2, 1, 0)
+		}
+		c := genTqCtx(r)
+		run("tags", query, c, "")
+		run("values", query, c, h.Pick(r, []string{"a", "http.status", "k'ey", "", "name"}))
+	}
+	return res.Compare("tags", ops, impl, cases)
+}
+
 func c11(r *h.Result, rng *h.Rng, tier string, replay string) error {
 	n := 600
 	if tier != "quick" {
 		n = 10000
 	}
-	r.Rule = "text: grammar-directed TraceQL scripts (chains of ≤ 4 selectors with && / ||, nested and/or with parentheses, repeated terms, prefixes . span. resource. name duration, string / number / duration values, all operators, aggregators with units) × random planner contexts; non-trivial = planned without error and has more than one selector, an aggregator or a boolean operator; distinct by (query, context)"
+	r.Rule = "text: grammar-directed TraceQL scripts (chains of ≤ 4 selectors with && / ||, nested and/or with parentheses, repeated terms, prefixes . span. resource. name duration, string / number / duration values, all operators, aggregators with units) × random planner contexts; non-trivial = planned without error and has more than one selector, an aggregator or a boolean operator; distinct by (query, context). tags: single selectors for PlanTagsV2/PlanValuesV2. syntax: every planned statement counts. sem: (query, context, trace database aimed at the query) with a non-empty result on either side"
 	if replay != "" {
 		b, err := os.ReadFile(replay)
 		if err != nil {
@@ -151,6 +231,9 @@ func c11(r *h.Result, rng *h.Rng, tier string, replay string) error {
 		}
 	}
 	if err := c11Text(rng.Fork(), r, n, 4, tier != "quick"); err != nil {
+		return err
+	}
+	if err := c11Tags(rng.Fork(), r, n/3); err != nil {
 		return err
 	}
 	if err := c11Syntax(rng.Fork(), r, n/2, 4); err != nil {
